@@ -5,6 +5,7 @@ package upstream
 import (
 	"github.com/andydunstall/yamux"
 	"github.com/gin-gonic/gin"
+	"github.com/prometheus/client_golang/prometheus"
 )
 
 // VerifLoadBalancer exposes the round-robin helper to the verification harness.
@@ -58,4 +59,30 @@ func (s *Server) VerifGoAwaySessions() int {
 		}
 	}
 	return n
+}
+
+// verifGauge / verifCounter let the harness observe (and own the schedule at)
+// the manager's calls into its metrics.
+type verifGauge struct {
+	prometheus.Gauge
+	name string
+	hook func(point string)
+}
+
+func (g *verifGauge) Inc() { g.hook(g.name + ".Inc"); g.Gauge.Inc() }
+func (g *verifGauge) Dec() { g.hook(g.name + ".Dec"); g.Gauge.Dec() }
+
+type verifCounter struct {
+	prometheus.Counter
+	name string
+	hook func(point string)
+}
+
+func (c *verifCounter) Inc() { c.hook(c.name + ".Inc"); c.Counter.Inc() }
+
+// VerifHookMetrics routes the manager's gauge/counter updates through hook.
+func (m *LoadBalancedManager) VerifHookMetrics(hook func(point string)) {
+	m.metrics.ConnectedUpstreams = &verifGauge{m.metrics.ConnectedUpstreams, "connected_upstreams", hook}
+	m.metrics.RegisteredEndpoints = &verifGauge{m.metrics.RegisteredEndpoints, "registered_endpoints", hook}
+	m.metrics.UpstreamRequestsTotal = &verifCounter{m.metrics.UpstreamRequestsTotal, "upstream_requests_total", hook}
 }
